@@ -57,6 +57,10 @@ def pinned_c03():
                 endpoint("aliasList", "POST", "/lim/aliasList", [arg("body", ref("Texts", P), "body")], tags=["server-limit-request-size: 10b"]),
                 endpoint("bin", "POST", "/lim/bin", [arg("body", prim("BINARY"), "body")], tags=["server-limit-request-size: 1kb"]),
             ])])),
+        # endpoint names that are also methods of the generated client / trait items
+        ("C03-endpoint-named-like-std-methods", definition([], [service("StdNamesService", P, [endpoint(n, "GET", "/std/" + n) for n in ["clone", "default", "drop", "into", "from", "eq", "hash", "fmt", "new", "endpoints"]])])),
+        # shapes earlier seeded changes needed (one definition, compiled in every run)
+        ("C03-regression-shapes", __import__("gen").regression_compile_definition()),
         ("C03-type-named-option-without-double", definition([obj("Option", P, [field("x", opt(S))]), union("Some", P, [field("a", S)]), enum("None", P, ["A"])])),
         # witnesses of fixed findings stay in the workload as ordinary judged cases
         ("C03-type-named-box-recursive", definition([obj("Leaf", P, [field("a", S)]), union("Box", P + ".other", [field("x", prim("INTEGER")), field("y", opt(ref("Leaf", P)))]),
@@ -221,6 +225,8 @@ def c10_labs(tier, seed):
         se, strip = rr.random() < 0.5, rr.choice([None, "com.verif", "com.verif.lab"])
         for ex in (False, True):
             g = LabGen(cs, Profile(n_types=40 if tier == "quick" else 60, services=0, errors=0, hostile_names=True))
+            if i == 0:
+                add_regression_wire_types(g)        # both builds of the first definition
             labs.append((cs, {"exhaustive": ex, "serialize_empty": se, "strip": strip}, g))
     return labs
 
@@ -237,8 +243,18 @@ def c02_labs(tier, seed, replay):
         cs = rr.getrandbits(48)
         cfg = dict(cfgs[i % 3]) if i < 3 else {"exhaustive": rr.random() < 0.5, "serialize_empty": rr.random() < 0.5, "strip": rr.choice([None, "com", "com.verif", "com.verif.lab"])}
         g = LabGen(cs, Profile(n_types=40 if tier == "quick" else 60, services=0, errors=0, hostile_names=True))
+        if i < 3:
+            add_regression_wire_types(g)        # the three fixed configurations
         labs.append((cs, cfg, g))
     return labs
+
+
+def add_regression_wire_types(g):
+    from gen import regression_wire_types
+    for d in regression_wire_types(g.p.packages[0]):
+        if d.name not in g.by_name:
+            g.types.append(d)
+            g.by_name[d.name] = d
 
 
 def wire_stage(prop, tier, seed, replay):
